@@ -315,15 +315,28 @@ def _tof_out_unit(kernel, units):
     return kin.out_unit(kernel, units)[1]
 
 
+_REF_CACHE = {}  # (kernel, units, values[, 'dom']) -> 50-digit reference; pure function of its key, bounded per case
+
+
+def _cached(key, fn):
+    hit = _REF_CACHE.get(key)
+    if hit is None:
+        if len(_REF_CACHE) > 20000:
+            _REF_CACHE.clear()
+        hit = _REF_CACHE[key] = (fn(),)
+    return hit[0]
+
+
 def _judge_tof_value(rec, site, kernel, vals, units, prec, got, label, sub):
     """Compare one float result with the definition.  Returns nothing; records classes / violations."""
     tol = TOL[prec]
+    key = (kernel, tuple(sorted(units.items())), tuple(sorted(vals.items())))
     if kernel in INELASTIC:
         mode = INELASTIC[kernel][0]
-        if prec == 'single' and not kin.energy_transfer_io_in_range(mode, vals, units):
+        if prec == 'single' and not _cached((*key, 'dom'), lambda: kin.energy_transfer_io_in_range(mode, vals, units)):
             rec.cls('out_of_domain_single')
             return
-        ref = kin.energy_transfer_reference(mode, vals, units)
+        ref = _cached(key, lambda: kin.energy_transfer_reference(mode, vals, units))
         if ref['margin'] < 100 * tol:
             rec.cls('boundary_dont_care')
             return
@@ -341,10 +354,10 @@ def _judge_tof_value(rec, site, kernel, vals, units, prec, got, label, sub):
         else:
             rec.viol(site, 'abs_error', f'{label}: got {got!r}, definition {hp.mpmath.nstr(ref["value"], 17)}, |difference| > {bound:.3e} (= {tol:g} x conditioning)', got=got, **sub)
         return
-    if prec == 'single' and not kin.io_in_range(kernel, vals, units):
+    if prec == 'single' and not _cached((*key, 'dom'), lambda: kin.io_in_range(kernel, vals, units)):
         rec.cls('out_of_domain_single')
         return
-    want = kin.reference(kernel, vals, units)
+    want = _cached(key, lambda: kin.reference(kernel, vals, units))
     rec.nontrivial += 1
     rec.validated += 1
     err = hp.rel_err(got, want)
@@ -481,6 +494,9 @@ def _run_tof(case, rec):
         _judge_tof_value(rec, site, kernel, vals, units, precision(tuple(dmap[n] for n in names)), float(res.value), label, sub)
         rec.cls('fine_integer_operand')
     for ip, point in enumerate(points):
+        if ip == 0:
+            _run_tof_binned_grid(case, rec, point)  # every binned position set x every dtype combination, base point
+            continue
         for pos in range(len(names) if tier == 'thorough' else 1):
             _run_tof_binned(case, rec, pos, ip, point)
 
@@ -489,6 +505,131 @@ def _binned(values, unit, dtype):
     """3 events in 2 bins (2 + 1) along 'pixel'."""
     table = sc.DataArray(sc.ones(dims=['event'], shape=[3]), coords={'x': sc.array(dims=['event'], values=values, unit=unit, dtype=dtype)})
     return sc.bins(begin=sc.array(dims=['pixel'], values=[0, 2], unit=None), dim='event', data=table).bins.coords['x']
+
+
+def _binned_sets(n):
+    """Operand position sets that hold event data: each position alone, and all together."""
+    sets = [(k,) for k in range(n)]
+    if n > 1:
+        sets.append(tuple(range(n)))
+    return sets
+
+
+def _binned_dtype_grid(n, tier):
+    """Every {float64, float32} combination; thorough adds int64 in one operand at a time."""
+    out = list(itertools.product(('float64', 'float32'), repeat=n))
+    if tier == 'thorough':
+        for k in range(n):
+            combo = ['float64'] * n
+            combo[k] = 'int64'
+            out.append(tuple(combo))
+    return out
+
+
+def _same_to_one_ulp(a, b):
+    """Element-wise: identical, both NaN, or within one unit in the last place of the (common) dtype."""
+    with np.errstate(invalid='ignore', over='ignore'):
+        return bool(np.all((a == b) | (np.isnan(a) & np.isnan(b)) | (np.abs(a - b) <= np.spacing(np.maximum(np.abs(a), np.abs(b))))))
+
+
+def _run_tof_binned_grid(case, rec, point):
+    """Event data in every operand position (one at a time and all together) x every dtype combination.
+
+    Binned operands hold 3 events in 2 bins (2 + 1); dense operands hold one value per bin (fixed energies: 0-d).
+    Oracle: unit and dtype contract of the events, the 50-digit definition per event, and equality (<= 1 ulp of the
+    result dtype) with the same kernel called on the same numbers as dense 1-d arrays over the events.
+    """
+    kernel, units, tier = case['kernel'], case['units'], case['tier']
+    spec = TOF_KERNELS[kernel]
+    fn = getattr(K, kernel)
+    site = f'conversion.tof.{kernel}'
+    names = [a for a, _ in spec['args']]
+    kinds = dict(spec['args'])
+    out_unit = sc.Unit(_tof_out_unit(kernel, units))
+    n = len(names)
+    ev_scales = ((1.0, 1.25, 0.75), (1.5, 1.0, 1.25), (0.75, 1.5, 1.0), (1.25, 0.75, 1.5))
+    bin_scales = ((1.0, 1.5), (1.25, 1.0), (1.0, 0.75), (1.5, 1.25))
+    event_bin = (0, 0, 1)
+    for bset, dts in itertools.product(_binned_sets(n), _binned_dtype_grid(n, tier)):
+        dmap = dict(zip(names, dts, strict=True))
+        kw, dense_kw, per_event = {}, {}, {}
+        for k, a in enumerate(names):
+            dt = dmap[a]
+            base = arg_value(kernel, a, kinds[a], units[a], dt, point)[0]
+            if k in bset:
+                vals = [base + j for j in range(3)] if dt.startswith('int') else [base * sc_ for sc_ in ev_scales[k]]
+                arr = np.asarray(vals, dtype=dt)
+                kw[a] = _binned(arr, units[a], dt)
+            elif kinds[a] == 'energy':
+                arr = np.asarray([base] * 3, dtype=dt)  # fixed energies: 0-d in practice
+                kw[a] = scalar(base, units[a], dt)
+            else:
+                pb = np.asarray([base + j for j in range(2)] if dt.startswith('int') else [base * sc_ for sc_ in bin_scales[k]], dtype=dt)
+                kw[a] = sc.array(dims=['pixel'], values=pb, unit=units[a], dtype=dt)
+                arr = pb[list(event_bin)]
+            per_event[a] = arr
+            dense_kw[a] = sc.array(dims=['event'], values=arr, unit=units[a], dtype=dt)
+        sub = {'units': units, 'dtypes': dmap, 'layout': 'binned_grid', 'binned_operands': [names[k] for k in bset]}
+        label = f'{kernel} event data in {[names[k] for k in bset]} units {units} dtypes {dmap}'
+        rec.states += 1
+        rec.transitions += 2
+        try:
+            dense = fn(**dense_kw)
+        except (sc.DTypeError, sc.UnitError) as e:
+            dense = e
+        try:
+            res = fn(**kw)
+        except (sc.DTypeError, sc.UnitError, sc.BinnedDataError, sc.DimensionError, sc.VariableError) as e:
+            if isinstance(dense, Exception) and type(dense) is type(e):
+                rec.cls('binned_refused_like_dense')
+            elif 'int64' in dts and isinstance(e, sc.DTypeError):
+                rec.cls('binned_int64_unsupported')  # "int64 where scipp supports it"
+            else:
+                rec.viol(site, 'raises_for_binned', f'{label}: {type(e).__name__}: {e} (the dense call on the same numbers works)', **sub)
+            continue
+        if isinstance(dense, Exception):
+            rec.viol(site, 'raises_for_dense', f'{label}: the dense call raises {type(dense).__name__}: {dense}, the binned call works', **sub)
+            continue
+        if res.bins is None:
+            rec.viol(site, 'not_binned', f'{label}: result is not binned', **sub)
+            continue
+        content = res.bins.constituents['data']
+        rec.evals += 1
+        if content.unit != out_unit:
+            rec.viol(site, 'wrong_unit', f'{label}: event unit {content.unit!r}, documented {out_unit!r}', got_unit=str(content.unit), **sub)
+            continue
+        want_dt = _expected_tof_dtype(kernel, dmap)
+        ok = True
+        if str(content.dtype) != want_dt:
+            rec.viol(site, 'wrong_dtype', f'{label}: event dtype {content.dtype}, contract {want_dt} (the dense call gives {dense.dtype})', got_dtype=str(content.dtype), **sub)
+            ok = False
+        if content.sizes != {'event': 3} or dict(res.sizes) != {'pixel': 2}:
+            rec.viol(site, 'wrong_dims', f'{label}: result sizes {dict(res.sizes)} / events {dict(content.sizes)}', **sub)
+            continue
+        rec.observe(content.values.tobytes().hex())
+        # differential: same numbers as dense arrays
+        rec.validated += 1
+        if content.dtype != dense.dtype or content.unit != dense.unit:
+            rec.viol(site, 'binned_differs_from_dense', f'{label}: events are {content.dtype} [{content.unit}], the dense call on the same numbers gives {dense.dtype} [{dense.unit}]', **sub)
+            ok = False
+        elif not _same_to_one_ulp(content.values, dense.values):
+            rec.viol(site, 'binned_differs_from_dense', f'{label}: events {content.values.tolist()}, dense call on the same numbers {dense.values.tolist()}', **sub)
+            ok = False
+        got = content.values.astype('float64')
+        for j in range(3):
+            vals = {a: float(np.asarray(per_event[a][j]).astype('float64')) for a in names}
+            _judge_tof_value(rec, site, kernel, vals, units, precision(dts), float(got[j]), f'{label} event {j}', {**sub, 'event': j})
+        if ok:
+            rec.cls('binned_ok' if bset == (0,) else 'binned_secondary_ok')
+            rec.cls('binned_equals_dense')
+            if len(bset) > 1:
+                rec.cls('binned_all_operands')
+            if 0 not in bset and dmap[names[0]] == 'float32' and any(dmap[names[k]] == 'float64' for k in bset):
+                rec.cls('binned_f64_secondary_with_f32_data')
+            if 0 not in bset and dmap[names[0]] == 'float64' and any(dmap[names[k]] == 'float32' for k in bset):
+                rec.cls('binned_f32_secondary_with_f64_data')
+            if 'int64' in dts:
+                rec.cls('binned_int64_ok')
 
 
 def _run_tof_binned(case, rec, pos=0, ip=0, point=None):
